@@ -102,6 +102,11 @@ func checkC03(p *Prog, l *Ledger) {
 	checkClosureWiring(cs, l, "C03/S2-scope-wiring")
 	checkNoDynamicScoping(p, l)
 	checkTreeLinks(p, l, "C03/S3-tree-links")
+	// the function activation is one of the scopes: what Function.Call binds in it (own name, parameters by position) is
+	// decided by C04's rule and reported here under C03's name
+	if cs := getClauses(p); cs.account(l) {
+		l.As(map[string]string{"C04/": "C03/S2-scope-wiring/activation/"}, func() { checkFunctionCall(cs, l) })
+	}
 }
 
 func checkEnvConstructors(p *Prog, l *Ledger) {
@@ -230,6 +235,9 @@ func checkNoDynamicScoping(p *Prog, l *Ledger) {
 			}
 			if fk == "interpreter.NewInterpreter" {
 				l.Discharge(rule, "Interpreter."+f, p.InstrPos(in), "set once by NewInterpreter", true)
+			} else if bt, isBasic := derefT(fa.Type()).Underlying().(*types.Basic); isBasic && bt.Info()&(types.IsNumeric|types.IsBoolean) != 0 {
+				// a number or flag cannot carry a scope (a call-depth counter, say); whether it is kept balanced is C04/S6
+				l.Discharge(rule, fk+"#store(Interpreter."+f+")", p.InstrPos(in), "a "+bt.Name()+" field cannot make a scope reachable", false)
 			} else {
 				l.Violate(rule, fk+"#store(Interpreter."+f+")", p.InstrPos(in), "interpreter state is rewritten during evaluation: a callee could observe its caller's scope through it")
 			}
